@@ -26,8 +26,14 @@ LEVEL_TEXT = ("Seeded (program, start method, schedule) worlds: 1-4 threads per 
               "calls never block on themselves and every task finishes. A fifth of the worlds let "
               "the terminal answer some queries only after the caller's timeout: there a reply "
               "that was already waiting in the input queue when a later query_terminal call "
-              "started must never be part of what that call returns. Sampling of schedules, "
-              "not proof.")
+              "started must never be part of what that call returns. Other worlds: an urwid "
+              "screen whose redraws, writes, flushes (stdout buffered in half of them) and "
+              "keyboard-input polls run next to queries (nothing reaches the terminal inside "
+              "another task's synchronized update or while another task owns the terminal "
+              "lock; a poll never sees somebody else's reply); terminal writes cut short (the "
+              "bytes of one write_tty call stay contiguous on the wire); a failing lock "
+              "creation or Process.start at the hand-over; every process importing the library "
+              "after another package wrapped Process.start. Sampling of schedules, not proof.")
 LEVEL_NOTE = ("Trusted: the kernel's lock models (threading.RLock and multiprocessing.RLock "
               "semantics: re-entrant per (process, thread), shared across processes by "
               "inheritance), the fork model (module globals copied, per-process memo tables "
